@@ -605,3 +605,10 @@ B("QoS 0 fast path bypasses the queue", ["C10"],
     "        request.deferred.msgId = request.msgId\n        if request.qos == 0 and not self.factory.windowPublish[self.addr]:\n            self._retryPublish(request, False)\n            return request.deferred\n        self.factory.queuePublishTx[self.addr].append(request)\n        self._refillPublish(dup=False)")], {"C10": ["W-FIFO", "W-TRIGGER", "W-ONCE", "W-BOUND"]})
 B("retry re-encodes when the DUP flag flips", ["C08"],
   [(PS, "        request.encoded[0] |=  (dup << 3)   # set the dup flag\n        request.dup = dup\n", "        if request.dup != dup:\n            request.dup = dup\n            request.encode()\n")], {"C08": ["R-SAME", "R-DUP"]})
+
+_OLD_FRAMER = "    def _accumulatePacket(self, data):\n        self._buffer.extend(data)\n\n        length = None\n\n        while len(self._buffer):\n            if length is None:\n                # Start on a new packet\n\n                # Haven't got enough data to start a new packet,\n                # wait for some more\n                if len(self._buffer) < 2:\n                    break\n\n                lenLen = 1\n                # Calculate the length of the length field\n                while lenLen < len(self._buffer):\n                    if not self._buffer[lenLen] & 0x80:\n                        break\n                    lenLen += 1\n\n                # We still haven't got all of the remaining length field\n                if lenLen < len(self._buffer) and self._buffer[lenLen] & 0x80:\n                    return\n\n                length = decodeLength(self._buffer[1:])\n\n            if len(self._buffer) >= length + lenLen + 1:\n                chunk = self._buffer[:length + lenLen + 1]\n                self._processPacket(chunk)\n                self._buffer = self._buffer[length + lenLen + 1:]\n                length = None\n\n            else:\n                break\n\n"
+_NEW_FRAMER = "    def _accumulatePacket(self, data):\n        self._buffer.extend(data)\n\n        offset = 0\n        size   = len(self._buffer)\n\n        # Haven't got enough data to start a new packet,\n        # wait for some more\n        while size - offset >= 2:\n            # Start on a new packet\n\n            lenLen = 1\n            # Calculate the length of the length field\n            while offset + lenLen < size:\n                if not self._buffer[offset + lenLen] & 0x80:\n                    break\n                lenLen += 1\n\n            # We still haven't got all of the remaining length field\n            if offset + lenLen == size:\n                EXIT\n\n            length = decodeLength(self._buffer[offset + 1:offset + lenLen + 1])\n            end    = offset + length + lenLen + 1\n\n            if end > size:\n                break\n\n            self._processPacket(self._buffer[offset:end])\n            offset = end\n\n        # Drop what has been processed, keep the incomplete packet (if any)\n        del self._buffer[:offset]\n\n"
+N("framer rewritten with a local offset and one trim (correct)", ["C03", "C14", "C16", "C04", "C06", "C18"], [(BASE, _OLD_FRAMER, _NEW_FRAMER.replace("EXIT", "break"))])
+B("offset-based framer whose early return skips the trim", ["C03"], [(BASE, _OLD_FRAMER, _NEW_FRAMER.replace("EXIT", "return"))], {"C03": ["F4"]})
+B("offset-based framer that forgets to advance the offset", ["C03"], [(BASE, _OLD_FRAMER, _NEW_FRAMER.replace("EXIT", "break").replace("            offset = end\n", ""))], {"C03": ["F2"]})
+B("offset-based framer trimming one byte too many", ["C03"], [(BASE, _OLD_FRAMER, _NEW_FRAMER.replace("EXIT", "break").replace("del self._buffer[:offset]", "del self._buffer[:offset + 1]"))], {"C03": ["F2"]})
